@@ -273,6 +273,8 @@ func runHistory(tr *vrt.Tracer, name string, ops []rdlOp, tick time.Duration, se
 				mt = 2*k - 1
 			case "p1":
 				mt = 2*k + 1
+			case "far", "far2":
+				mt = 1000001 // never reached
 			default:
 				mt = 2*k + 3
 			}
@@ -280,6 +282,14 @@ func runHistory(tr *vrt.Tracer, name string, ops []rdlOp, tick time.Duration, se
 			if mt != 0 {
 				t = base.Add(time.Duration(mt) * half)
 				at = us(t)
+			}
+			if op.K == "far" { // centuries ahead: beyond what a time.Duration can express
+				t = time.Now().AddDate(400, 0, 0)
+				at = 2000000000
+			}
+			if op.K == "far2" {
+				t = time.Date(9999, 12, 31, 23, 59, 59, 0, time.UTC)
+				at = 2000000000
 			}
 			a.setDL(t)
 			tr.Emit(vrt.M{"ev": "setdl", "t": mt, "at": at})
@@ -345,7 +355,7 @@ func TestVerifRDLVirtual(t *testing.T) {
 		for j := 0; j < 25; j++ {
 			switch c := rng.Intn(10); {
 			case c < 3:
-				ops = append(ops, rdlOp{Op: "S", K: []string{"none", "past", "p1", "p3"}[rng.Intn(4)]})
+				ops = append(ops, rdlOp{Op: "S", K: []string{"none", "past", "p1", "p3", "p1", "p3", "far", "far2"}[rng.Intn(8)]})
 			case c < 5:
 				ops = append(ops, rdlOp{Op: "A"})
 			case c < 7:
